@@ -87,6 +87,17 @@ theorem symbolTable_bytes_perm (env : Env) (fuel : Nat) (c : C) {m1 m2 : List (B
 theorem enc_deterministic (env : Env) (fuel : Nat) (c : C) (v1 v2 : Val) (h : v1 = v2) :
     enc env fuel c v1 = enc env fuel c v2 := by rw [h]
 
+/-- the maps and sets of a module interface whose iteration order is not part of the interface -/
+def mustBeSorted : List (String × String) :=
+  [("SymbolTable", ""), ("write_type_map", ""), ("write_json", ""), ("write_json_value", ""),
+   ("TypeInfo", "slots"), ("TypedDictType", "required_keys"), ("TypedDictType", "readonly_keys"),
+   ("ExtraAttrs", "immutable"), ("MypyFile", "future_import_flags")]
+
+/-- (generated obligation) every one of them is written by iterating `sorted(…)` — which is what ties
+    `encMap` (and `symbolTable_bytes_perm`) to `SymbolTable.write`, `write_type_map`, `write_json` … -/
+theorem interface_maps_sorted :
+    (mustBeSorted.all fun (w, f) => Gen.iterOrder.contains (w, f, "sorted")) = true := by decide
+
 instance (m : List (Bytes × Val)) : Decidable (KeysNodup m) := by unfold KeysNodup; infer_instance
 example : KeysNodup [([122], .int 1), ([97], .int 2), ([97, 98], .int 3)] ∧
     encMap (fun _ => .fail) 1 .int [([122], .int 1), ([97], .int 2), ([97, 98], .int 3)] =
